@@ -223,6 +223,12 @@ Qed.
 
 (* ---------- the whole CAT stream ---------- *)
 
+Lemma split_off_exact l : split_off l (length l) = Some (l, []).
+Proof.
+  unfold split_off. rewrite Nat.ltb_irrefl, firstn_all, skipn_all. reflexivity.
+Qed.
+
+
 (* flags without STRIPE/PACK/RLE whose data is stored verbatim -- CAT given, or forced by the
    encoder because fewer than N (4 or 32) bytes are to be coded: noodles' decoder returns the
    input from the emitted stream, with or without the size field (NO_SIZE) *)
@@ -245,11 +251,95 @@ Proof.
   cbn [nx_decode app]. destruct (nx_flags_roundtrip f3) as [Hfb _]. rewrite Hfb.
   rewrite S3, P3, R3, C3, N3.
   destruct (f_nosize f).
-  - cbn [app]. replace (N.of_nat (length src) =? N.of_nat (length src)) with true by lia.
-    reflexivity.
-  - rewrite uint7_roundtrip by exact Hlen.
-    replace (N.of_nat (length src) =? N.of_nat (length src)) with true by lia.
-    reflexivity.
+  - cbn [app]. rewrite Nnat.Nat2N.id, split_off_exact. reflexivity.
+  - rewrite uint7_roundtrip by exact Hlen. rewrite Nnat.Nat2N.id, split_off_exact. reflexivity.
+Qed.
+
+(* the repaired CAT branch (497e771): a payload shorter than the declared size is an ERROR
+   (UnexpectedEof), where dst.copy_from_slice(src) used to panic; a longer one is cut *)
+Theorem nx_cat_short_payload_is_error f size payload usize :
+  f_stripe f = false -> f_pack f = false -> f_rle f = false -> f_cat f = true ->
+  f_nosize f = false -> size < 4294967296 -> N.of_nat (length payload) < size ->
+  nx_decode (byte_of_flags f :: write_uint7 size ++ payload) usize = DErr.
+Proof.
+  intros Hst Hpk Hrl Hcat Hns Hsz Hshort. cbn [nx_decode].
+  destruct (nx_flags_roundtrip f) as [Hfb _]. rewrite Hfb. rewrite Hns, Hst, Hpk, Hrl, Hcat.
+  rewrite uint7_roundtrip by exact Hsz. unfold split_off.
+  replace (length payload <? N.to_nat size)%nat with true by (symmetry; apply Nat.ltb_lt; lia).
+  reflexivity.
+Qed.
+
+Theorem nx_cat_long_payload_is_cut f src extra usize :
+  f_stripe f = false -> f_pack f = false -> f_rle f = false -> f_cat f = true ->
+  f_nosize f = false -> N.of_nat (length src) < 4294967296 ->
+  nx_decode (byte_of_flags f :: write_uint7 (N.of_nat (length src)) ++ src ++ extra) usize = DOk src.
+Proof.
+  intros Hst Hpk Hrl Hcat Hns Hsz. cbn [nx_decode].
+  destruct (nx_flags_roundtrip f) as [Hfb _]. rewrite Hfb. rewrite Hns, Hst, Hpk, Hrl, Hcat.
+  rewrite uint7_roundtrip by exact Hsz. rewrite Nnat.Nat2N.id. unfold split_off.
+  replace (length (src ++ extra) <? length src)%nat with false
+    by (symmetry; apply Nat.ltb_ge; rewrite app_length; lia).
+  rewrite firstn_app, Nat.sub_diag, firstn_all. cbn [firstn]. rewrite app_nil_r. reflexivity.
+Qed.
+
+(* the repaired unpack (464651e): a packed value without an entry in the mapping table is an ERROR
+   (InvalidData), where mapping_table[..] used to panic *)
+Theorem pack_decode_bad_value_is_error table w cs s rest n :
+  pack_geom (length table) = Some (S cs, w) -> (1 <= n)%nat ->
+  N.of_nat (length table) <= s mod w ->
+  pack_decode table (s :: rest) n = DErr.
+Proof.
+  intros Hg Hn Hbad. unfold pack_decode. rewrite Hg. cbn [unpack_go].
+  replace (n =? 0)%nat with false by (symmetry; apply Nat.eqb_neq; lia).
+  destruct (Nat.min (S cs) n) as [|m] eqn:Em; [lia|]. cbn [unpack_byte].
+  replace (N.of_nat (length table) <=? s mod w) with true by lia. reflexivity.
+Qed.
+
+(* ---------- the decoder model never panics ---------- *)
+
+Lemma rle_dec_never_panics : forall fuel A l m n, rle_dec fuel A l m n <> DPanic.
+Proof.
+  induction fuel as [|fu IH]; intros A l m n; cbn [rle_dec]; [discriminate|].
+  destruct (n =? 0)%nat; [discriminate|]. destruct l as [|sym lr]; [discriminate|].
+  destruct (mem sym A).
+  - destruct (read_uint7 m) as [len m'| |]; try discriminate.
+    destruct (rle_dec fu A lr m' (n - 1 - Nat.min (N.to_nat len) (n - 1))) eqn:E; try discriminate.
+    exfalso. exact (IH _ _ _ _ E).
+  - destruct (rle_dec fu A lr m (n - 1)) eqn:E; try discriminate.
+    exfalso. exact (IH _ _ _ _ E).
+Qed.
+
+Lemma rle_decode_never_panics l meta n : rle_decode l meta n <> DPanic.
+Proof.
+  unfold rle_decode. destruct (rle_read_alphabet meta) as [[A m]|]; [|discriminate].
+  apply rle_dec_never_panics.
+Qed.
+
+Lemma pack_decode_never_panics table d n : pack_decode table d n <> DPanic.
+Proof.
+  unfold pack_decode. destruct (pack_geom (length table)) as [[cs w]|]; [|discriminate].
+  destruct cs; [discriminate|]. destruct (unpack_go table (S cs) w d n); discriminate.
+Qed.
+
+(* for EVERY byte string and caller size the model of the repaired decoder returns bytes, an
+   io::Error, or reaches an unmodelled stage -- it has no panicking path left *)
+Theorem nx_decode_never_panics bs usize : nx_decode bs usize <> DPanic.
+Proof.
+  unfold nx_decode. destruct bs as [|fb r0]; [discriminate|].
+  set (f := flags_of_byte fb). clearbody f.
+  destruct (if f_nosize f then U7Ok usize r0 else read_uint7 r0) as [size0 r1| |]; try discriminate.
+  destruct (f_stripe f); [discriminate|].
+  match goal with |- match ?x with _ => _ end <> _ => destruct x as [[[pctx size1] r2]|] end;
+    [|discriminate].
+  match goal with |- match ?x with _ => _ end <> _ => destruct x as [[[[rctx size2] r3]|u]|] end;
+    try discriminate.
+  destruct (f_cat f); [|discriminate].
+  destruct (split_off r3 (N.to_nat size2)) as [[payload rest]|]; [|discriminate].
+  destruct rctx as [meta|].
+  - destruct (rle_decode payload meta (N.to_nat size1)) eqn:E; try discriminate.
+    + destruct pctx; [apply pack_decode_never_panics|discriminate].
+    + exfalso. exact (rle_decode_never_panics _ _ _ E).
+  - destruct pctx; [apply pack_decode_never_panics|discriminate].
 Qed.
 
 (* the statement for every transform combination, NOT proved as a whole: the PACK and RLE context
